@@ -212,6 +212,33 @@ static int sweep_file(const std::string &work) {
       fs.reset(); rm_tree(base); rm_tree(base + "_second");
     }
   }
+  // BIG records (texts of 70000 and 100000 bytes: legal below the default maximum of 102400) mixed with short ones, with size limits smaller than one big
+  // record and limits that the running size crosses INSIDE a big record: a back-end that writes a record in several pieces must not roll over between them.
+  // shapes x limit {1, 64, one 70000-record + half a head, 150000, 1 MiB} x O_DSYNC {off,on} x pipe buffers {default, 64 B} on the burst pacing, and the
+  // flush-after-each-record pacing with default options; same oracle as above (every file ends on a record boundary; concatenation == expected sequence).
+  { bool quick = getenv("VERIF_TIER") && !strcmp(getenv("VERIF_TIER"), "quick");
+    static const std::vector<std::vector<size_t>> SHAPES = {{70000}, {9, 70000, 9}, {70000, 100000}, {9, 9, 100000, 9, 70000}};
+    static std::string big[2]; if (big[0].empty()) { big[0].resize(70000); big[1].resize(100000); for (auto &b : big) for (size_t i = 0; i < b.size(); i++) b[i] = (char)('a' + (i * 7 + i / 26) % 26); }
+    LogSetMaxLength(100 << 10);
+    for (size_t si = 0; si < SHAPES.size(); si++) for (size_t limit : {(size_t)1, (size_t)64, (size_t)(70000 + 60), (size_t)150000, (size_t)(1u << 20)}) for (int pace = 0; pace < 2; pace++) for (int v = 0; v < 4; v++) {
+      const int small = v % 2, sync = v / 2; if (pace && (v || (quick && si != 1))) continue;
+      std::string dir = work + "/fbig" + std::to_string(N); rm_tree(dir); vsec = BASE_SEC; std::string want;
+      char desc[200]; std::string shp; for (size_t n : SHAPES[si]) shp += (shp.empty() ? "" : ",") + std::to_string(n);
+      snprintf(desc, sizeof desc, "big records: text sizes {%s} limit=%zu pace=%d buffers=%s dsync=%d", shp.c_str(), limit, pace, small ? "64B" : "default", sync); hx::set_current(desc);
+      { AsyncFileSink fs; fs.setFilePath(dir); fs.setFilePrefix("log"); fs.setFileMaxSize(limit); fs.setLevel(LOG_LEVEL_TRACE);
+        if (small) { AsyncSink::Config cfg; cfg.buff_size = 64; cfg.buff_min_num = 1; cfg.buff_max_num = 3; cfg.interval = 100; fs.setConfig(cfg); }
+        if (sync) fs.setFileSyncEnable(true);
+        fs.enable(); int k = 0;
+        for (size_t n : SHAPES[si]) { std::string t = n == 70000 ? big[0] : n == 100000 ? big[1] : "short-" + std::to_string(k) + "-x"; t.resize(n, 'x');
+          if (k % 2) LogPrintfFunc("mod", "fn", "f.cpp", k, LOG_LEVEL_INFO, 1, "%s", t.c_str()); else LogPrintfFunc("mod", "fn", "f.cpp", k, LOG_LEVEL_INFO, 0, t.c_str());
+          want += line_head(LOG_LEVEL_INFO, vsec, "mod") + "fn() " + t + " -- f.cpp:" + std::to_string(k) + "\n"; k++;
+          if (pace) usleep(150000); }
+        fs.disable(); }
+      bool split; size_t files; std::string all = read_files(dir, split, files); N++;
+      if (split) printf("@VIOL sig=file-sink-record-split-across-files(big-record) :: %s files=%zu\n", desc, files);
+      else if (all != want) printf("@VIOL sig=file-sink-records-lost-duplicated-or-reordered-on-disk-after-disable(big-record) :: %s files=%zu %s\n", desc, files, first_diff(all, want).c_str());
+      if (si == 1 && limit == 64 && v == 0) printf("@SAMPLE %s => %zu files, %zu bytes\n", desc, files, all.size());
+      rm_tree(dir); } }
   // long names through the file sink: module of 64, function of 255, file name of 200 characters (behind a 1500-character directory part), 3 records, roll-over after each
   { static std::string lmod(64, 'M'), lfn(255, 'f'), lfile = std::string(1500, 'd') + "/" + std::string(196, 'F') + ".cpp";
     std::string dir = work + "/flong"; rm_tree(dir); vsec = BASE_SEC; std::string want; hx::set_current("file sink, long module/function/file names");
